@@ -94,6 +94,23 @@ Definition targ_leaves (s : st) (m : list (name * N)) : list leaf :=
 Definition first_some {A} (l : list (option A)) : option A :=
   find_map (fun x => x) l.
 
+(** bang_operator.rs common::{expect,unexpect}_type_annotation and the optional annotation of !getdagop *)
+Definition index_annot (op : bop) (annot : option (ty * rng)) (r : rng) : M (option mty) :=
+  match bang_annot op with
+  | AnUnexpect =>
+    match annot with Some (_, tr) => err tr DUnexpectAnnot | None => ret tt end ;; ret None
+  | AnExpect =>
+    match annot with
+    | Some (t, _) => try_ (index_ty t)
+    | None => err r DExpectAnnot ;; ret None
+    end
+  | AnOptional =>
+    match annot with Some (t, _) => try_ (index_ty t) | None => ret None end
+  end.
+(** common::expect_values: the arity diagnostic covers the whole operator node *)
+Definition check_arity (op : bop) (vs : list value) (r : rng) : M unit :=
+  if arity_ok (bang_arity op) (length vs) then ret tt else err r DArity.
+
 (** ---------------------------------------------------------------------------------------------
     values *)
 Fixpoint index_value (fuel : nat) (v : value) : M mty :=
@@ -197,8 +214,10 @@ with index_arg (fuel : nat) (a : arg) : M argv :=
   | O => bad
   | S n =>
     match a with
-    | APos v r => t <- index_value n v ;; ret (None, t, r)
-    | ANamed nm v r => t <- index_value n v ;; ret (Some nm, t, r)
+    | APos v r =>
+      o <- try_ (index_value n v) ;; ret (None, match o with Some t => t | None => MUnknown end, r)
+    | ANamed nm v r =>
+      o <- try_ (index_value n v) ;; ret (Some nm, match o with Some t => t | None => MUnknown end, r)
     | ANamedBad r => err r DNamedArgBad ;; none
     end
   end
@@ -207,18 +226,15 @@ with index_bang (fuel : nat) (op : bop) (annot : option (ty * rng)) (vs : list v
   match fuel with
   | O => bad
   | S n =>
-    a <- match bang_annot op with
-         | AnUnexpect =>
-           match annot with Some (_, tr) => err tr DUnexpectAnnot | None => ret tt end ;; ret None
-         | AnExpect =>
-           match annot with
-           | Some (t, _) => try_ (index_ty t)
-           | None => err r DExpectAnnot ;; ret None
-           end
-         | AnOptional =>
-           match annot with Some (t, _) => try_ (index_ty t) | None => ret None end
-         end ;;
-    (if arity_ok (bang_arity op) (length vs) then ret tt else err r DArity) ;;
+    a <- index_annot op annot r ;;
+    check_arity op vs r ;;
+    index_bang_ops n op a vs r
+  end
+
+with index_bang_ops (fuel : nat) (op : bop) (a : option mty) (vs : list value) (r : rng) : M mty :=
+  match fuel with
+  | O => bad
+  | S n =>
     let bind_var (i : ident) (t : mty) : M unit :=
         loc <- here (i_rng i) ;; scopes_add_variable (mkLeaf LVar (i_name i) t false loc) in
     match op with
